@@ -227,6 +227,38 @@ def run(prog: Program, chk: Check):
         else:
             Q.decide(universal, fkey(f, "universal"), where(f), "decides element-wise / by delegation", f"{f.qual} examines no element of `{p}`")
 
+    # ---- D domain predicate at every normal exit of validate_one ------------------------------------------------
+    D = chk.rule("C09-D", "every normal exit of validate_one implies the field's domain predicate (own ctype, or right Python type within range / length / ASCII)", 6,
+                 "a value that passes validate_one outside the domain is stored (wrapped by ctypes) instead of refused")
+    DOMAIN = {
+        "IntValidatorBase": "isinstance({v}, self._ctype) or (isinstance({v}, int) and not (int({v}) < self._min) and not (int({v}) > self._max))",
+        "Byte": "isinstance({v}, self._ctype) or (isinstance({v}, int) and not ({v} < self._min) and not ({v} > self._max)) or (isinstance({v}, (bytes, bytearray)) and len({v}) == 1)",
+        "FloatValidatorBase": "isinstance({v}, self._ctype) or (isinstance({v}, (float, int)) and not math.isinf(self._ctype({v}).value))",
+        "String": "isinstance({v}, str) and not (len({v}) > self.len - 1) and {v}.isascii()",
+        "Char": "isinstance({v}, self._ctype) or (isinstance({v}, str) and not (len({v}) > self.len) and {v}.isascii())",
+        "Struct": "isinstance({v}, self._ctype)",
+    }
+    for cname, tmpl in DOMAIN.items():
+        ci = m.classes.get(cname)
+        fi = ci.methods.get("validate_one") if ci is not None else None
+        if fi is None or is_stub(fi.node):
+            raise AnalysisError(f"anchor vanished: {cname}.validate_one")
+        v = fi.params()[-1]
+        g = C.build(fi.node)
+        gs = flow.guard_states(g)
+        goal = guards.parse(tmpl.format(v=v))
+        paths = []
+        for e in g.pred[g.exit.id]:
+            if e.kind in ("exc", "except"):
+                continue
+            paths += gs.after_edge(e)
+        # chained comparisons `a <= x <= b` are split by the guard logic; int(x) vs x are different operands on purpose
+        with guards.int_theory():
+            bad = guards.any_path_implies(paths, goal)
+        D.decide(not bad and bool(paths), fkey(fi, "domain-at-exit"), where(fi), "every way of returning normally establishes the domain predicate",
+                 f"{cname}.validate_one can return normally for a value outside the domain; facts on that path: "
+                 + (", ".join(("" if pol else "not ") + norm(x) for x, pol in paths[bad[0]]) if bad else "no normal exit"))
+
     # ---- W bounds table ------------------------------------------------------------------------------------
     W = chk.rule("C09-W", "_min/_max of every integer validator equal the 2**bits bounds of its _size/_unsigned and its ctypes type", 9,
                  "a wrong bound accepts a value the C type wraps, or refuses a representable one")
